@@ -96,12 +96,21 @@ type HCase struct {
 	Buffers string `json:"buffers"` // nil: empty in-situ object, the library allocates | garbage: caller-allocated, pre-filled | reused: the routine's own arguments refilled by the caller
 	First   HCall  `json:"first"`
 	Second  HCall  `json:"second"`
+	// recycle histories (Slot != ""): call 1 is made by routine Producer with its own, library-
+	// allocated buffers; the matrix it RETURNS (Take = "D": the second one, cholesky's D) is
+	// handed to call 2 (Routine) as the buffer Slot: Id | A | L | D (in-situ fields), a | x
+	// (gaussJordan's arguments).
+	Producer string `json:"producer,omitempty"`
+	Take     string `json:"take,omitempty"`
+	Slot     string `json:"slot,omitempty"`
 }
 
 type hres struct {
 	label string // returned | error | panic | tick-budget | nil-result
 	vals  []float64
 	msg   string
+	mat   ad.Matrix // the returned matrix object itself (recycle histories)
+	mat2  ad.Matrix
 }
 
 func (r hres) finite() bool { return allFinite(r.vals...) }
@@ -167,6 +176,11 @@ func choleskyGarbage(t ad.ScalarType, n int, withD bool) cholesky.InSitu {
 
 // newSession returns the call function of one in-situ object (one per history / per fresh call).
 func newSession(routine, elem string, n int, buffers string) func(h HCall) hres {
+	return newSessionR(routine, elem, n, buffers, "", nil)
+}
+
+// newSessionR: as newSession, with the buffer `slot` replaced by the matrix R.
+func newSessionR(routine, elem string, n int, buffers string, slot string, R ad.Matrix) func(h HCall) hres {
 	t := elemTypes[elem]
 	garbage := buffers == "garbage"
 	switch routine {
@@ -174,6 +188,14 @@ func newSession(routine, elem string, n int, buffers string) func(h HCall) hres 
 		is := &matrixInverse.InSitu{}
 		if garbage {
 			is = &matrixInverse.InSitu{Id: garbageMatrix(t, n), A: garbageMatrix(t, n), B: garbageVector(t, n), Cholesky: choleskyGarbage(t, n, false)}
+		}
+		switch slot {
+		case "Id":
+			is.Id = R
+		case "A":
+			is.A = R
+		case "L":
+			is.Cholesky.L = R
 		}
 		return func(h HCall) hres {
 			a := buildCoded(t, n, h.A)
@@ -194,12 +216,17 @@ func newSession(routine, elem string, n int, buffers string) func(h HCall) hres 
 				X = x
 				return err
 			})
-			return finish(res, func() []float64 { return matVals(X) }, func() bool { return isNilM(X) })
+			r := finish(res, func() []float64 { return matVals(X) }, func() bool { return isNilM(X) })
+			r.mat = X
+			return r
 		}
 	case "determinant":
 		is := &determinant.InSitu{}
 		if garbage {
 			is = &determinant.InSitu{Cholesky: choleskyGarbage(t, n, false)}
+		}
+		if slot == "L" {
+			is.Cholesky.L = R
 		}
 		return func(h HCall) hres {
 			a := buildCoded(t, n, h.A)
@@ -225,6 +252,12 @@ func newSession(routine, elem string, n int, buffers string) func(h HCall) hres 
 			g := choleskyGarbage(t, n, true)
 			is = &g
 		}
+		switch slot {
+		case "L":
+			is.L = R
+		case "D":
+			is.D = R
+		}
 		return func(h HCall) hres {
 			a := buildCoded(t, n, h.A)
 			var args []interface{}
@@ -241,18 +274,23 @@ func newSession(routine, elem string, n int, buffers string) func(h HCall) hres 
 				L, D = l, d
 				return err
 			})
-			return finish(res, func() []float64 {
+			r := finish(res, func() []float64 {
 				v := matVals(L)
 				if !isNilM(D) {
 					v = append(v, matVals(D)...)
 				}
 				return v
 			}, func() bool { return isNilM(L) })
+			r.mat, r.mat2 = L, D
+			return r
 		}
 	case "backSubstitution":
 		is := &backSubstitution.InSitu{}
 		if garbage {
 			is = &backSubstitution.InSitu{A: garbageMatrix(t, n), X: garbageVector(t, n), T: ad.NewScalar(t, 7.25)}
+		}
+		if slot == "A" {
+			is.A = R
 		}
 		return func(h HCall) hres {
 			a := buildCoded(t, n, h.A)
@@ -273,9 +311,23 @@ func newSession(routine, elem string, n int, buffers string) func(h HCall) hres 
 		a := garbageMatrix(t, n)
 		x := garbageMatrix(t, n)
 		b := garbageVector(t, n)
+		switch slot {
+		case "a":
+			a = R
+		case "x":
+			x = R
+		}
 		return func(h HCall) hres {
-			a.Set(buildCoded(t, n, h.A))
-			x.SetIdentity()
+			for i := 0; i < n; i++ {
+				for j := 0; j < n; j++ {
+					a.At(i, j).SetFloat64(decodeEntry(h.A[i*n+j]))
+					if i == j {
+						x.At(i, j).SetFloat64(1)
+					} else {
+						x.At(i, j).SetFloat64(0)
+					}
+				}
+			}
 			b.Set(buildVector(t, h.Rhs))
 			var args []interface{}
 			if has(h.Opt, "UT") {
@@ -362,6 +414,9 @@ type hverdict struct {
 func runHist(h HCase) hverdict {
 	if _, ok := elemTypes[h.Elem]; !ok || newSession(h.Routine, h.Elem, h.N, h.Buffers) == nil {
 		return hverdict{outcome: "bad-case"}
+	}
+	if h.Slot != "" {
+		return runRecycle(h)
 	}
 	s := newSession(h.Routine, h.Elem, h.N, h.Buffers)
 	r1 := s(h.First)
@@ -704,6 +759,177 @@ func exploreHistories(c *vf.Ctx) {
 											c.Violate(v.key, v.what, rank, h)
 										}
 										if idx%200003 == 0 {
+											c.Sample(h)
+										}
+									}
+								}
+							}
+						}
+					}
+				}
+			}
+		}
+	}
+}
+
+// ---- recycle histories -----------------------------------------------------------
+
+// slotsOf: the matrix buffers of a routine that an option set really uses.
+func slotsOf(routine, opt string) []string {
+	switch routine {
+	case "matrixInverse":
+		r := []string{"Id"}
+		if !has(opt, "PD") || has(opt, "sub") {
+			r = append(r, "A")
+		}
+		if has(opt, "PD") {
+			r = append(r, "L")
+		}
+		return r
+	case "determinant":
+		if has(opt, "PD") {
+			return []string{"L"}
+		}
+	case "cholesky":
+		if has(opt, "LDL") {
+			return []string{"L", "D"}
+		}
+		return []string{"L"}
+	case "backSubstitution":
+		return []string{"A"}
+	case "gaussJordan":
+		return []string{"a", "x"}
+	}
+	return nil
+}
+
+type producer struct {
+	routine, opt, take string
+}
+
+// the calls of the property's routines that return a matrix
+var producers = []producer{
+	{"matrixInverse", "", ""}, {"matrixInverse", "UT", ""}, {"matrixInverse", "PD", ""},
+	{"cholesky", "", ""}, {"cholesky", "LDL", "D"},
+}
+
+// recycleFirstInputs: symmetric tridiagonal, diagonal 2, off-diagonals over {0,1} (all positive
+// definite); for an upper-triangular producer the upper triangle of these.
+func recycleFirstInputs(n int, opt string) [][]int {
+	var r [][]int
+	for k := 0; k < 1<<(n-1); k++ {
+		m := exact.New(n)
+		for i := 0; i < n; i++ {
+			m.Set(i, i, 2)
+			if i+1 < n {
+				v := int64(k >> i & 1)
+				m.Set(i, i+1, v)
+				if !has(opt, "UT") {
+					m.Set(i+1, i, v)
+				}
+			}
+		}
+		r = append(r, m.Ints())
+	}
+	return r
+}
+
+func runRecycle(h HCase) hverdict {
+	if newSession(h.Producer, h.Elem, h.N, "nil") == nil {
+		return hverdict{outcome: "bad-case"}
+	}
+	r1 := newSession(h.Producer, h.Elem, h.N, "nil")(h.First)
+	R := r1.mat
+	if h.Take == "D" {
+		R = r1.mat2
+	}
+	from := h.Producer + ":" + optBase(h.First.Opt)
+	if h.Take != "" {
+		from += ":" + h.Take
+	}
+	if r1.label != "returned" || isNilM(R) {
+		return hverdict{outcome: "recycle from=" + from + ":producer-" + r1.label}
+	}
+	r2 := newSessionR(h.Routine, h.Elem, h.N, h.Buffers, h.Slot, R)(h.Second)
+	fresh := newSession(h.Routine, h.Elem, h.N, h.Buffers)(h.Second)
+	v := hverdict{outcome: "recycle from=" + from + ",second=" + r2.label, nontriv: true}
+	descr := func() string {
+		return fmt.Sprintf("%s %s: the matrix returned by %s{%s} on %s is recycled as buffer %s (other buffers %s) of the call {%s} mask=%v rhs=%v on the regular %s",
+			h.Routine, h.Elem, h.Producer, h.First.Opt, entriesString(h.N, h.First.A), h.Slot, h.Buffers, h.Second.Opt, h.Second.Mask, h.Second.Rhs, entriesString(h.N, h.Second.A))
+	}
+	key := func(bad string) string {
+		return "recycle|" + h.Routine + "|slot=" + h.Slot + "|from=" + from + "|second=" + optBase(h.Second.Opt) + "|elem=" + histElemClass(h) + "|" + bad
+	}
+	switch {
+	case r2.label == "tick-budget" && fresh.label != "tick-budget":
+		v.key, v.what = "TICK|"+key("second-call-exceeds-tick-budget"), descr()+" exceeded the tick budget; with fresh buffers it ends with "+fresh.label
+	case r2.label != fresh.label:
+		v.key = key("second-call-" + r2.label + "-but-fresh-call-" + fresh.label)
+		v.what = descr() + " ended with " + r2.label + " " + r2.msg + "; the same call with fresh buffers: " + fresh.label + " " + fresh.msg
+	case r2.label == "returned":
+		if ok, i := sameBits(r2.vals, fresh.vals); !ok {
+			v.key = key("second-call-result-differs-from-fresh-call")
+			v.what = fmt.Sprintf("%s returned %v; the same call with fresh buffers %v (first difference at position %d)", descr(), r2.vals, fresh.vals, i)
+		}
+	}
+	if fresh.label != "returned" || !fresh.finite() {
+		v.outcome += "(fresh-call:" + fresh.label + ")"
+		v.nontriv = false
+	}
+	return v
+}
+
+func exploreRecycle(c *vf.Ctx) {
+	routines := []string{"matrixInverse", "determinant", "cholesky", "backSubstitution", "gaussJordan"}
+	elems := []string{"Float64", "Real64", "Float32", "Real32"}
+	var idx int64
+	for n := 1; n <= 3; n++ {
+		seconds := histSecondInputs(n)
+		rhs := rhsList(n)
+		ramp := rhs[len(rhs)-1]
+		for _, routine := range routines {
+			modes := []string{"nil", "garbage"}
+			if routine == "gaussJordan" {
+				modes = []string{"reused"}
+			}
+			for _, o2 := range histOptions(routine, n) {
+				// n=3 quick: consumer option sets without a mask
+				if n == 3 && !c.Thorough() && o2.mask != nil {
+					continue
+				}
+				for _, slot := range slotsOf(routine, o2.opt) {
+					for _, m2 := range seconds {
+						if !admissible(routine, o2, m2) {
+							continue
+						}
+						for _, pr := range producers {
+							for fi, f := range recycleFirstInputs(n, pr.opt) {
+								for _, e := range elems {
+									for _, mode := range modes {
+										idx++
+										if !c.Mine(idx) {
+											continue
+										}
+										h := HCase{Kind: "history", Routine: routine, N: n, Elem: e, Buffers: mode,
+											Producer: pr.routine, Take: pr.take, Slot: slot,
+											First:  HCall{A: f, Opt: pr.opt},
+											Second: HCall{A: m2.Ints(), Opt: o2.opt, Mask: o2.mask}}
+										if (routine == "backSubstitution" || routine == "gaussJordan") && !has(o2.opt, "nilb") {
+											h.Second.Rhs = ramp
+										}
+										rank := int64(8e17) + int64(n)*1e15 + int64(fi)*1e9 + idx%1e9
+										c.Guard("recycle|"+routine+"|"+slot+"|"+pr.routine+":"+pr.opt+"|"+o2.opt+"|"+e, rank, h)
+										v := runHist(h)
+										c.Eval(1)
+										if v.nontriv {
+											c.Nontrivial(1)
+										}
+										c.Outcome("recycle|" + routine + "|slot=" + slot + "|" + v.outcome)
+										c.Count("recycle:"+routine+":"+v.outcome, 1)
+										if v.key != "" {
+											c.Violate(v.key, v.what, rank, h)
+										}
+										if idx%50021 == 0 {
 											c.Sample(h)
 										}
 									}
